@@ -112,7 +112,7 @@ def _worker(args):
         for idx in range(start, start + count):
             run_seed = core.derive(master, prop, tier, idx)
             rng = random.Random(run_seed)
-            for plan in suite.cases(rng, tier, run_seed):
+            for plan in suite.cases(rng, tier, run_seed, idx=idx):
                 rep = run_one(suite, plan)
                 out["n_cases"] += 1
                 out["n_exec"] += rep.n_exec
@@ -129,7 +129,8 @@ def _worker(args):
                         out["samples"].append((idx, plan))
                 if rep.violations:
                     v = rep.violations[0]
-                    out["violations"].append({"idx": idx, "plan": plan, "violation": v.to_json(), "digest": rep.digest})
+                    out["violations"].append({"idx": idx, "plan": getattr(rep, "replay_plan", None) or plan,
+                                              "violation": v.to_json(), "digest": rep.digest})
                     if len(out["violations"]) >= 3:
                         return out
     except HarnessError as e:
@@ -323,7 +324,7 @@ def finalize_violation(suite, v):
     v2 = [x for x in rep2.violations if x.clause == vio["clause"]][0]
     d = os.path.join(os.environ.get("VERIF_REPLAY_DIR") or os.path.join(core.VERIF_DIR, "replays"), suite.prop)
     os.makedirs(d, exist_ok=True)
-    path = os.path.join(d, "%d.json" % plan.get("run_seed", 0))
+    path = os.path.join(d, "%d-%s.json" % (plan.get("run_seed", 0), core.short_hash((v2.clause, v2.locus, json.dumps(small, sort_keys=True, default=str)))[:8]))
     rec = {"property": suite.prop, "violation": v2.to_json(), "digest": rep2.digest, "plan": small,
            "shrink": {"tests": n_tests, "wall_s": round(time.time() - t0, 2), "ops_before": _count_ops(plan), "ops_after": _count_ops(small)},
            "unminimised_plan": plan, "verif_seed": int(os.environ.get("VERIF_SEED", "1")), "run_index": v["idx"]}
